@@ -271,7 +271,7 @@ func doSelect(fr *frame, instr *ssa.Select) value {
 	switch {
 	case len(ready) == 0:
 		if instr.Blocking {
-			ex.abort(AbortBlocked, "select with no ready case")
+			ex.abort(AbortBlocked, "select with no ready case in %s%s", fr.fn, loc(fr.i.prog.Fset, instr.Pos()))
 		}
 	case len(ready) == 1:
 		chosen = ready[0]
